@@ -225,7 +225,7 @@ pub fn shrink_text(text: &str, fails: &dyn Fn(&str) -> bool) -> String {
     };
     let mut changed = true;
     let mut rounds = 0;
-    while changed && rounds < 6 {
+    while changed && rounds < 12 {
         changed = false;
         rounds += 1;
         // delete lines, last first
@@ -240,6 +240,54 @@ pub fn shrink_text(text: &str, fails: &dyn Fn(&str) -> bool) -> String {
             if fails(&join(&cand)) {
                 lines = cand;
                 changed = true;
+            }
+        }
+        // redirect operands and roots to earlier nodes (turns a chain into its failing operator)
+        for i in 0..lines.len() {
+            let toks: Vec<String> = lines[i].split(' ').map(|t| t.to_string()).collect();
+            if toks.len() < 3 || ["sort", "input", "state", "const", "constd", "consth", "zero", "one", "ones"].contains(&toks[1].as_str()) {
+                continue;
+            }
+            let earlier: Vec<String> = lines[..i]
+                .iter()
+                .filter_map(|l| {
+                    let t: Vec<&str> = l.split(' ').collect();
+                    if t.len() > 2 && t[1] != "sort" && !["output", "bad", "constraint", "init", "next"].contains(&t[1]) { Some(t[0].to_string()) } else { None }
+                })
+                .collect();
+            let first = if ["output", "bad", "constraint"].contains(&toks[1].as_str()) { 2 } else { 3 };
+            let last = if ["init", "next"].contains(&toks[1].as_str()) {
+                5
+            } else if btorref::is_operator(&toks[1]) {
+                3 + btorref::arity(&toks[1])
+            } else {
+                3
+            };
+            for k in first..last.min(toks.len()) {
+                let (neg, id) = match toks[k].strip_prefix('-') {
+                    Some(d) => ("-", d.to_string()),
+                    None => ("", toks[k].clone()),
+                };
+                if (toks[1] == "init" || toks[1] == "next") && k == 3 {
+                    continue;
+                }
+                for cand in earlier.iter() {
+                    if *cand == id {
+                        break; // only strictly earlier nodes
+                    }
+                    let mut t2 = toks.clone();
+                    t2[k] = format!("{neg}{cand}");
+                    let mut c = lines.clone();
+                    c[i] = t2.join(" ");
+                    if fails(&join(&c)) {
+                        lines = c;
+                        changed = true;
+                        break;
+                    }
+                }
+                if changed {
+                    break;
+                }
             }
         }
         // un-negate tokens / drop trailing name
